@@ -2,6 +2,7 @@ package checks
 
 import (
 	"fmt"
+	"regexp"
 	"strings"
 	"time"
 
@@ -60,7 +61,9 @@ func c06Ops(sub bool) []string {
 	// a variable assigned from inside a function (through a reference to the outer variable) between two in-place-looking
 	// updates of it
 	ops = append(ops, "func() { a = b }()", "func() { b = a }()", "a[0] = 120; func() { a = b }(); a[1] = 121", "del(a[0]); func() { a = b }(); del(a[1])", "b[0] = 122; func() { b = a }(); b[1] = 123",
-		"a[0] = 124; sw = func() { c = a; a = b }; sw(); a[-1] = 125")
+		"a[0] = 124; sw = func() { c = a; a = b }; sw(); a[-1] = 125",
+		// library extensions that scribble on / normalise their argument list, called with an array as the whole list
+		"b = a; catch(verif_scramble(a))", "c = a; catch(verif_fsum(a))", "b = a; catch(verif_scramble(0, a))", "catch(max(a)); catch(sprintf(a))")
 	// containers whose representation is large although their length is back under the threshold
 	ops = append(ops, "a = "+c06Map(5)+"; del(a[4])", "a = {0: 1, 0: 2, 0: 3, 0: 4, 0: 5, 1: 6}", "a = "+c06Arr(12)+"; a = a[0:3]", "del(a[1]); del(a[2])")
 	if !sub {
@@ -69,6 +72,8 @@ func c06Ops(sub bool) []string {
 	}
 	return ops
 }
+
+var c06ExtCall = regexp.MustCompile(`catch\((verif_\w+|max|sprintf)\([^)]*\)\)`)
 
 const c06Init = "a = []; b = []; c = []"
 const c06Observe = "[a, b, c]"
@@ -82,7 +87,9 @@ func c06Run(hist []string) *core.Viol {
 		in.Run(c06Init)
 		implEval(x, c06Init, 100000)
 		for i, op := range hist {
-			w := in.Run(op)
+			// (calls of the harness's library extensions and of variadic built-in extensions are discarded observations:
+			// the reference gets the operation without them; they must not change any variable)
+			w := in.Run(c06ExtCall.ReplaceAllString(op, "1"))
 			if w.Unsup != "" {
 				return &core.Viol{Class: "unsupported", Detail: w.Unsup, Case: cs}
 			}
@@ -171,9 +178,9 @@ func runC06(c *core.Ctx) {
 
 func init() {
 	core.Register(&core.Check{
-		ID:    "C06",
-		Level: "model_checking",
-		Rule: "depth-bounded complete exploration of histories on one session over variables a, b, c: binding arrays of sizes 0,1,7,8,9,10,20 and maps of sizes 0,1,3,4,5,6,20, copying (b = a, nesting in arrays and maps, passing to functions, slicing, rest), mutating (index assignment incl. negative, append and merge with +, element deletion, repetition, mutation during iteration, mutation through a copy or an extracted element). No state merging (hidden sharing is not captured by any observable key). The alphabet also has containers whose representation is large while their length is small again (deleted entries, repeated literal keys, slices), values derived from one base twice (two merges, slice then append), and outer-scope containers handed on from inside functions (variadic arguments, literals, locals, parameters). After every operation the structural dump of every variable equals the reference evaluator's (immutable values, no size thresholds) and the error/no-error outcome agrees. Non-trivial = compared histories; distinct by operation sequence.",
+		ID:          "C06",
+		Level:       "model_checking",
+		Rule:        "depth-bounded complete exploration of histories on one session over variables a, b, c: binding arrays of sizes 0,1,7,8,9,10,20 and maps of sizes 0,1,3,4,5,6,20, copying (b = a, nesting in arrays and maps, passing to functions, slicing, rest), mutating (index assignment incl. negative, append and merge with +, element deletion, repetition, mutation during iteration, mutation through a copy or an extracted element). No state merging (hidden sharing is not captured by any observable key). The alphabet also has containers whose representation is large while their length is small again (deleted entries, repeated literal keys, slices), values derived from one base twice (two merges, slice then append), and outer-scope containers handed on from inside functions (variadic arguments, literals, locals, parameters). After every operation the structural dump of every variable equals the reference evaluator's (immutable values, no size thresholds) and the error/no-error outcome agrees. Non-trivial = compared histories; distinct by operation sequence.",
 		Assume:      []string{"reference evaluator of internal/ref"},
 		QuickCap:    100 * time.Second,
 		ThoroughCap: 20 * time.Minute,
